@@ -978,7 +978,8 @@ def scaled_again(S, D1, O, name, sf):
         terms = [as_num(sv[i]) * (O[j, i] / hs[i]) for i in idx]
         exp = sum(terms[1:], terms[0]) / sf
         sc = sum(np.abs(t) for t in terms)
-        if is_none(D1["p"][name][j]) or not close(D1["p"][name][j], exp, 1e-7 * sc + 1e-300):
+        slv = sum(np.abs(as_num(sv[i])) for i in idx) * 2 * TOLERANCES["overlap_eps_fraction"]
+        if is_none(D1["p"][name][j]) or not close(D1["p"][name][j], exp, 1e-7 * sc + slv + 1e-300):
             return False
         if np.any(sc > 0):
             seen = True
